@@ -61,10 +61,12 @@ pub(crate) fn named(attr: &StructAttr, ts_name: Expr, fields: &FieldsNamed) -> R
 
     Ok(DerivedTS {
         crate_rename,
-        // the `replace` combines `{ ... } & { ... }` into just one `{ ... }`. Not necessary, but it
-        // results in simpler type definitions.
-        inline: quote!(#inline.replace(" } & { ", " ")),
-        inline_flattened: Some(quote!(#inline_flattened.replace(" } & { ", " "))),
+        // the `replace` combines `{ ..., } & { ... }` into just one `{ ..., ... }`. Not necessary, but
+        // it results in simpler type definitions. The `,` is part of the pattern because the text
+        // also contains the inlined types of the fields, and an object which does not end in `,`
+        // (e.g. the `{ "tag": "Variant" }` of an internally tagged enum) can not be merged like this.
+        inline: quote!(#inline.replace(", } & { ", ", ")),
+        inline_flattened: Some(quote!(#inline_flattened.replace(", } & { ", ", "))),
         docs: attr.docs.clone(),
         dependencies,
         export: attr.export,
